@@ -1,1 +1,452 @@
-fn main() {}
+//! C16 — parsers fail with an error, never crash, on arbitrary input (fault enumeration).
+//!
+//! Real code: duke::read_class (+ duke::write_class on what it accepts), quill::tiny_v2::read, quill::tiny_v2_diff::read_file,
+//! quill::enigma_file::read_into, dukenest Nests::read, the three descriptor parse() functions — all called in a SANDBOXED
+//! CHILD PROCESS (same binary, `--child`) with address-space and stack limits.
+//! Oracle: process-level only — the child's event log (BEGIN / END outcome peak_alloc per input), its exit status, and the
+//! counting allocator. No expectation about *what* a parser returns is involved.
+mod child;
+mod classmut;
+mod proto;
+mod sandbox;
+mod textmut;
+
+use classmut::{MutInfo, Mutant};
+use common::{par::*, report::{finish, Meta}, *};
+use proto::*;
+use sandbox::{Limits, Outcome, Sandbox, Stats};
+use std::collections::{BTreeMap, HashMap};
+use std::sync::Mutex;
+use textmut::Fmt;
+
+#[global_allocator]
+static ALLOC: common::alloc_mon::Counting = common::alloc_mon::Counting;
+
+const PROP: &str = "C16";
+/// peak live heap allowed for one input: 16 MiB + 64 x input length
+fn budget(len: usize) -> u64 { (16u64 << 20) + 64 * len as u64 }
+
+// ------------------------------------------------------------------------------------------------ shared state
+
+#[derive(Clone)]
+struct Example { key: (usize, String, u64, usize), detail: Value }
+
+#[derive(Default)]
+struct Shared {
+    /// smallest input seen per signature (ties: workload, case, index) — becomes the replay file
+    examples: Mutex<BTreeMap<String, Example>>,
+    src_lines: Mutex<HashMap<(String, u32), String>>,
+    stats: Mutex<Stats>,
+    repo: String,
+}
+
+fn rel_file(file: &str) -> String {
+    if let Some(p) = file.find("/registry/src/") { let rest = &file[p + 14..]; return format!("dep:{}", rest.split_once('/').map(|x| x.1).unwrap_or(rest)); }
+    if let Some(p) = file.find("/library/") { if file.starts_with("/rustc/") { return format!("std:{}", &file[p + 1..]); } }
+    if let Some(p) = file.rfind("/repo/") { return file[p + 6..].to_string(); }
+    file.to_string()
+}
+
+impl Shared {
+    /// the trimmed source line of a panic location inside the repository (identifies the site without its line number)
+    fn src_line(&self, file: &str, line: u32) -> String {
+        let rel = rel_file(file);
+        if rel.starts_with("dep:") || rel.starts_with("std:") || line == 0 { return String::new(); }
+        let key = (rel.clone(), line);
+        if let Some(s) = self.src_lines.lock().unwrap().get(&key) { return s.clone(); }
+        let text = std::fs::read_to_string(format!("{}/{}", self.repo, rel)).unwrap_or_default();
+        let s: String = text.lines().nth(line as usize - 1).unwrap_or("").trim().chars().take(90).collect();
+        self.src_lines.lock().unwrap().insert(key, s.clone());
+        s
+    }
+    fn panic_site(&self, file: &str, line: u32, message: &str) -> String {
+        let p = PanicInfo { file: file.to_string(), line, message: message.to_string() };
+        let src = self.src_line(file, line);
+        if src.is_empty() { format!("{}: {}", rel_file(file), p.template()) } else { format!("{}: {} @ `{}`", rel_file(file), p.template(), src) }
+    }
+}
+
+/// Deliberately coarse: the allocation counter cannot name the requesting site, and finer classes would split one defect
+/// (a length field trusted for a pre-allocation) over many signatures. The measured numbers are in the violation detail.
+fn size_class(len: usize) -> &'static str { if len < 1 << 20 { "under 1 MiB" } else { "of 1 MiB or more" } }
+fn alloc_class(_bytes: u64) -> &'static str { "over 16 MiB + 64 x input length" }
+
+fn template(msg: &str) -> String {
+    let mut out = String::new(); let mut in_q = false; let mut in_num = false;
+    for c in msg.chars() {
+        if c == '"' { in_q = !in_q; if in_q { out.push_str("\"..\""); } continue; }
+        if in_q { continue; }
+        if c.is_ascii_digit() { if !in_num { out.push('#'); in_num = true; } continue; }
+        in_num = false; out.push(c);
+    }
+    out.chars().take(44).collect()
+}
+
+// ------------------------------------------------------------------------------------------------ the oracle
+
+struct Item<'a> { parser: Parser, aux: u8, seed: &'a [u8], edits: &'a [Edit], info: &'a MutInfo, source: &'a str, index: usize, recipe: Option<Value> }
+
+/// Decides one observed outcome. Everything here is process-level: outcome code, exit status, allocation counter.
+fn judge(rep: &mut Report, sh: &Shared, it: &Item, out: &Outcome) {
+    let len = len_after(it.seed.len(), it.edits);
+    let p = it.parser.name();
+    let mut sigs: Vec<(String, Value)> = vec![];
+    let phase_code = |rep: &mut Report, who: &str, ph: &Phase, sigs: &mut Vec<(String, Value)>| -> &'static str {
+        match ph {
+            Phase::Ok => "ok",
+            Phase::Err(m) => { if rep.seen_n(&format!("error_templates.{who}")) < 300 { rep.seen(&format!("error_templates.{who}"), &template(m)); } "err" }
+            Phase::Panic { file, line, message } => {
+                let site = sh.panic_site(file, *line, message);
+                rep.seen("panic_sites", &format!("{who}: {site}"));
+                sigs.push((format!("{PROP} {who}: panic {site}"), json!({"panic_message": message, "at": format!("{}:{}", rel_file(file), line)})));
+                "panic"
+            }
+        }
+    };
+    let code: String;
+    match out {
+        Outcome::Done(d) => {
+            let c = phase_code(rep, p, &d.read, &mut sigs);
+            rep.count(&format!("outcome.{p}.{c}"));
+            let mut cs = c.to_string();
+            if let Phase::Err(m) = &d.read { cs.push(':'); cs.push_str(&template(m)); }
+            if d.peak > budget(len) {
+                rep.count(&format!("outcome.{p}.over_allocation_budget"));
+                sigs.push((format!("{PROP} {p}: allocation {} for input {}", alloc_class(d.peak), size_class(len)), json!({"peak_live_bytes": d.peak, "largest_request": d.largest, "budget": budget(len)})));
+            }
+            rep.max(&format!("max.peak_bytes.{p}"), d.peak);
+            rep.max(&format!("max.peak_permille_of_budget.{p}"), d.peak * 1000 / budget(len));
+            rep.max(&format!("max.duration_us.{p}"), d.dur_us);
+            if let Some((w, wpeak)) = &d.write {
+                let wc = phase_code(rep, "write_class", w, &mut sigs);
+                rep.count(&format!("outcome.write_class.{wc}"));
+                rep.count("inputs.write_class");
+                rep.max("max.peak_bytes.write_class", *wpeak);
+                cs.push_str("/w:"); cs.push_str(wc);
+            }
+            code = cs;
+        }
+        Outcome::Died { signal, exit, what, in_write, stderr } => {
+            let who = if *in_write { "write_class" } else { p };
+            rep.count(&format!("outcome.{who}.signal"));
+            let mut what = what.clone();
+            if what == "stack overflow" {
+                let bytes = apply(it.seed, it.edits);
+                let shape = match it.parser {
+                    Parser::ReadClass => classmut::describe_recursive_shape(&bytes),
+                    Parser::Enigma | Parser::TinyV2 | Parser::TinyDiff => { let deep = bytes.split(|c| *c == b'\n').map(|l| l.iter().take_while(|c| **c == b'\t').count()).max().unwrap_or(0); if deep >= 256 { "input indented 256+ deep" } else { "unclassified input" } }
+                    _ => "unclassified input",
+                };
+                what = format!("stack overflow; {shape}");
+            }
+            if what == "allocation failure" {
+                let n: u64 = stderr.split("memory allocation of ").nth(1).and_then(|s| s.split(' ').next()).and_then(|s| s.parse().ok()).unwrap_or(0);
+                what = format!("allocation failure; request of {} for input {}", if n >= 1 << 30 { "1 GiB or more" } else { "less than 1 GiB" }, size_class(len));
+            }
+            let sig = match (signal, exit) { (Some(s), _) => format!("{PROP} {who}: killed by signal {s} ({what})"), (None, Some(c)) => format!("{PROP} {who}: process exit status {c} ({what})"), _ => format!("{PROP} {who}: died ({what})") };
+            sigs.push((sig, json!({"stderr": stderr.chars().take(300).collect::<String>()})));
+            code = format!("signal:{what}");
+        }
+        Outcome::Hang { in_write } => {
+            let who = if *in_write { "write_class" } else { p };
+            rep.count(&format!("outcome.{who}.timeout"));
+            sigs.push((format!("{PROP} {who}: hang"), json!({"rule": "no progress within the stall budget in the batch and in three isolated re-runs with 10x the budget"})));
+            code = "hang".into();
+        }
+        Outcome::HangUnclear { in_write } => {
+            let who = if *in_write { "write_class" } else { p };
+            rep.count(&format!("outcome.{who}.timeout_unresolved"));
+            rep.count("unresolved_suspected_hangs");
+            rep.note(format!("suspected hang of {who} not confirmed by the isolated re-runs (input of {len} bytes from {})", it.source));
+            code = "hang?".into();
+        }
+    }
+    if it.info.family == "special" && ["ladder.", "self_reference.", "limit."].iter().any(|x| it.info.role.starts_with(x)) { rep.seen("special_outcomes", &format!("{} [{}] {p}: {}", it.info.role, it.info.value, code.chars().take(90).collect::<String>())); }
+    rep.eval();
+    rep.count(&format!("inputs.{p}"));
+    rep.count(&format!("mutations.{}.{}", it.info.family, it.info.role));
+    // non-trivial: a mutated input (not the seed as is); distinct by parser x mutation family/role/value x outcome (+ error template)
+    if !it.edits.is_empty() || it.recipe.is_some() {
+        rep.nontrivial(common::rng::fnv_str(&format!("{p}|{}|{}|{}|{code}", it.info.family, it.info.role, if it.info.family == "set_field" { it.info.value.as_str() } else { "" })));
+    }
+    for (sig, extra) in sigs {
+        let key = (len, rep.cur.0.clone(), rep.cur.1, it.index);
+        let mut ex = sh.examples.lock().unwrap();
+        let better = match ex.get(&sig) { None => true, Some(e) => key < e.key };
+        if better {
+            let mut d = json!({"parser": p, "aux": it.aux, "input_len": len, "seed": it.source, "mutation": {"family": it.info.family, "role": it.info.role, "value": it.info.value}, "observed": extra});
+            if len <= 128 << 10 { d["input_hex"] = json!(cf::model::hex(&apply(it.seed, it.edits))); }
+            if let Some(r) = &it.recipe { d["input_recipe"] = r.clone(); }
+            if it.parser != Parser::ReadClass && len <= 4096 { d["input_text"] = json!(String::from_utf8_lossy(&apply(it.seed, it.edits))); }
+            ex.insert(sig.clone(), Example { key, detail: d });
+        }
+        drop(ex);
+        rep.violation(sig, Value::Null);
+    }
+    if rep.want_sample() && !it.edits.is_empty() && len < 400 && (it.index % 97 == 13) {
+        rep.sample(|| json!({"parser": p, "seed": it.source, "mutation": {"family": it.info.family, "role": it.info.role, "value": it.info.value}, "input_hex": cf::model::hex(&apply(it.seed, it.edits)), "outcome": code}));
+    }
+}
+
+fn harness_error(msg: &str) -> ! { println!("HARNESS-ERROR {msg}"); eprintln!("HARNESS-ERROR {msg}"); std::process::exit(3) }
+
+struct Job { parser: Parser, aux: u8, seed: u32, edits: Vec<Edit>, info: MutInfo, recipe: Option<Value> }
+
+/// runs the jobs through the sandbox (in chunks) and judges every outcome
+fn run_jobs(sb: &Sandbox, rep: &mut Report, sh: &Shared, seeds: Vec<Vec<u8>>, jobs: Vec<Job>, source: &str) {
+    const CHUNK: usize = 25_000;
+    let mut base = 0usize;
+    let mut jobs = jobs;
+    while !jobs.is_empty() {
+        let rest = if jobs.len() > CHUNK { jobs.split_off(CHUNK) } else { vec![] };
+        let batch = Batch { seeds: seeds.clone(), inputs: jobs.iter().map(|j| Input { parser: j.parser, aux: j.aux, seed: j.seed, edits: j.edits.clone() }).collect() };
+        let mut st = Stats::default();
+        let outs = match sb.run(&batch, &mut st) { Ok(o) => o, Err(e) => harness_error(&format!("sandbox: {e} (workload {} case {})", rep.cur.0, rep.cur.1)) };
+        { let mut g = sh.stats.lock().unwrap(); g.spawns += st.spawns; g.restarts_after_death += st.restarts_after_death; g.stalls += st.stalls; g.isolated_reruns += st.isolated_reruns; }
+        for (k, (j, o)) in jobs.iter().zip(&outs).enumerate() {
+            judge(rep, sh, &Item { parser: j.parser, aux: j.aux, seed: &seeds[j.seed as usize], edits: &j.edits, info: &j.info, source, index: base + k, recipe: j.recipe.clone() }, o);
+        }
+        base += jobs.len();
+        jobs = rest;
+    }
+}
+
+fn jobs_from(parser: Parser, aux: u8, seed: u32, muts: Vec<Mutant>) -> Vec<Job> {
+    let mut v = vec![Job { parser, aux, seed, edits: vec![], info: MutInfo::new("seed", "unchanged", ""), recipe: None }];
+    v.extend(muts.into_iter().map(|(edits, info)| Job { parser, aux, seed, edits, info, recipe: None }));
+    v
+}
+
+// ------------------------------------------------------------------------------------------------ specials (grouped by family)
+
+enum SpecialInput { Class(Vec<u8>), Text(Fmt, Vec<u8>), Desc(Vec<u8>) }
+fn all_specials(thorough: bool) -> Vec<(String, Vec<(String, SpecialInput)>)> {
+    let mut groups: Vec<(String, Vec<(String, SpecialInput)>)> = vec![];
+    let mut push = |fam: &str, param: String, inp: SpecialInput| { match groups.iter_mut().find(|g| g.0 == fam) { Some(g) => g.1.push((param, inp)), None => groups.push((fam.to_string(), vec![(param, inp)])) } };
+    for (f, p, b) in classmut::specials(thorough) { push(f, p, SpecialInput::Class(b)); }
+    for (f, p, fmt, b) in textmut::special_texts(thorough) { push(f, format!("{p} {fmt:?}"), SpecialInput::Text(fmt, b)); }
+    for (f, p, b) in textmut::special_descs(thorough) { push(f, p, SpecialInput::Desc(b)); }
+    groups
+}
+fn fmt_parser(f: Fmt) -> Parser { match f { Fmt::Tiny => Parser::TinyV2, Fmt::TinyDiff => Parser::TinyDiff, Fmt::Enigma => Parser::Enigma, Fmt::Nests => Parser::Nests } }
+
+fn special_jobs(family: &str, items: Vec<(String, SpecialInput)>) -> (Vec<Vec<u8>>, Vec<Job>) {
+    let mut seeds = vec![]; let mut jobs = vec![];
+    for (param, inp) in items {
+        let recipe = Some(json!({"special": family, "param": param}));
+        let info = MutInfo::new("special", Box::leak(family.to_string().into_boxed_str()), param.clone());
+        let k = seeds.len() as u32;
+        match inp {
+            SpecialInput::Class(b) => { seeds.push(b); jobs.push(Job { parser: Parser::ReadClass, aux: 0, seed: k, edits: vec![], info, recipe }); }
+            SpecialInput::Text(f, b) => { seeds.push(b); jobs.push(Job { parser: fmt_parser(f), aux: 2, seed: k, edits: vec![], info, recipe }); }
+            SpecialInput::Desc(b) => { seeds.push(b); for p in [Parser::FieldDesc, Parser::MethodDesc, Parser::ReturnDesc] { jobs.push(Job { parser: p, aux: 0, seed: k, edits: vec![], info: info.clone(), recipe: recipe.clone() }); } }
+        }
+    }
+    (seeds, jobs)
+}
+
+// ------------------------------------------------------------------------------------------------ self checks
+
+fn canaries(sb: &Sandbox, sh: &Shared) {
+    use Parser::*;
+    let order = [CanaryOk, CanaryPanic, CanaryOk, CanaryAbort, CanaryOk, CanaryStack, CanaryAlloc, CanaryAllocFail, CanaryOk];
+    let batch = Batch { seeds: vec![b"canary".to_vec()], inputs: order.iter().map(|p| Input { parser: *p, aux: 0, seed: 0, edits: vec![] }).collect() };
+    let mut st = Stats::default();
+    let outs = sb.run(&batch, &mut st).unwrap_or_else(|e| harness_error(&format!("canary batch: {e}")));
+    let ok = |o: &Outcome| matches!(o, Outcome::Done(d) if d.read == Phase::Ok && d.peak < (1 << 20));
+    let checks: [(&str, bool); 9] = [
+        ("plain input reported ok", ok(&outs[0])),
+        ("panic inside the child reported as panic with its location", matches!(&outs[1], Outcome::Done(d) if matches!(&d.read, Phase::Panic { file, message, .. } if file.ends_with("child.rs") && message.contains("index out of bounds")))),
+        ("input after a panic still runs", ok(&outs[2])),
+        ("abort attributed to the input that was open", matches!(&outs[3], Outcome::Died { signal: Some(6), what, .. } if what == "abort")),
+        ("child restarted on the remaining inputs", ok(&outs[4]) && st.restarts_after_death == 3 && st.spawns == 4),
+        ("stack exhaustion recognised", matches!(&outs[5], Outcome::Died { what, .. } if what == "stack overflow")),
+        ("96 MiB allocation measured", matches!(&outs[6], Outcome::Done(d) if d.peak >= 96 << 20 && d.largest >= 96 << 20)),
+        ("allocation failure under the address-space limit recognised", matches!(&outs[7], Outcome::Died { what, .. } if what == "allocation failure")),
+        ("last input ran", ok(&outs[8])),
+    ];
+    for (what, good) in checks { if !good { harness_error(&format!("sandbox canary failed: {what}; outcomes: {outs:?}")); } }
+    // the oracle must flag exactly the bad ones
+    let mut probe = Report::new();
+    let info = MutInfo::new("canary", "canary", "");
+    for (k, o) in outs.iter().enumerate() { judge(&mut probe, sh, &Item { parser: order[k], aux: 0, seed: b"canary", edits: &[], info: &info, source: "canary", index: k, recipe: None }, o); }
+    let sigs: Vec<&String> = probe.violations.keys().collect();
+    let want = ["canary panic: panic", "canary abort: killed by signal 6 (abort)", "canary stack: killed by signal", "canary alloc: allocation over 16 MiB + 64 x input length for input under 1 MiB", "canary allocation failure: killed by signal 6 (allocation failure; request of 1 GiB or more"];
+    for w in want { if !sigs.iter().any(|s| s.contains(w)) { harness_error(&format!("oracle canary failed: no signature containing {w:?} among {sigs:?}")); } }
+    if sigs.len() != want.len() { harness_error(&format!("oracle canary failed: unexpected signatures {sigs:?}")); }
+    sh.examples.lock().unwrap().retain(|k, _| !k.contains("canary"));
+}
+
+fn hang_canary(out_dir: &str) -> Result<(), String> {
+    let sb = Sandbox::new(out_dir, Limits { stall: std::time::Duration::from_millis(300), ..Limits::default() })?;
+    let order = [Parser::CanaryOk, Parser::CanaryHang, Parser::CanaryOk];
+    let batch = Batch { seeds: vec![vec![]], inputs: order.iter().map(|p| Input { parser: *p, aux: 0, seed: 0, edits: vec![] }).collect() };
+    let mut st = Stats::default();
+    let outs = sb.run(&batch, &mut st)?;
+    if !matches!(outs[1], Outcome::Hang { .. }) || !matches!(outs[0], Outcome::Done(_)) || !matches!(outs[2], Outcome::Done(_)) || st.isolated_reruns != 3 { return Err(format!("hang canary: {outs:?} {st:?}")); }
+    Ok(())
+}
+
+// ------------------------------------------------------------------------------------------------ replay
+
+fn replay_one(ctx: &Ctx, sb: &Sandbox, sh: &Shared, path: &str) -> ! {
+    let text = std::fs::read_to_string(path).unwrap_or_else(|e| harness_error(&format!("cannot read replay {path}: {e}")));
+    let v: Value = serde_json::from_str(&text).unwrap_or_else(|e| harness_error(&format!("bad replay {path}: {e}")));
+    let d = &v["detail"];
+    let parser = d["parser"].as_str().and_then(Parser::from_name).unwrap_or_else(|| harness_error("replay file has no parser"));
+    let aux = d["aux"].as_u64().unwrap_or(0) as u8;
+    let bytes: Vec<u8> = if let Some(h) = d["input_hex"].as_str() { cf::model::unhex(h).unwrap_or_else(|| harness_error("bad input_hex")) }
+        else if let Some(r) = d.get("input_recipe") {
+            let (fam, param) = (r["special"].as_str().unwrap_or(""), r["param"].as_str().unwrap_or(""));
+            let found = all_specials(true).into_iter().filter(|g| g.0 == fam).flat_map(|g| g.1).find(|(p, _)| p == param);
+            match found { Some((_, SpecialInput::Class(b))) | Some((_, SpecialInput::Text(_, b))) | Some((_, SpecialInput::Desc(b))) => b, None => harness_error("replay recipe not found") }
+        } else { harness_error("replay file has neither input_hex nor input_recipe") };
+    let mut rep = Report::new();
+    rep.cur = (v["workload"].as_str().unwrap_or("replay").to_string(), v["case"].as_u64().unwrap_or(0));
+    let info = MutInfo::new("replay", "replay", "");
+    let jobs = vec![Job { parser, aux, seed: 0, edits: vec![], info, recipe: Some(json!({"replay_of": path})) }];
+    run_jobs(sb, &mut rep, sh, vec![bytes], jobs, "replay");
+    fill_examples(&mut rep, sh);
+    let meta = Meta::new("fault_enumeration", "replay of one recorded input");
+    std::process::exit(finish(ctx, rep, meta));
+}
+
+fn fill_examples(rep: &mut Report, sh: &Shared) {
+    let ex = sh.examples.lock().unwrap();
+    for (sig, v) in rep.violations.iter_mut() { if let Some(e) = ex.get(sig) { v.detail = e.detail.clone(); v.workload = e.key.1.clone(); v.case = e.key.2; } }
+}
+
+// ------------------------------------------------------------------------------------------------ main
+
+fn sub_ctx(ctx: &Ctx, secs: f64) -> Ctx { let mut c = ctx.clone(); c.start = std::time::Instant::now(); c.budget = std::time::Duration::from_secs_f64(secs.max(0.5)); c }
+
+fn main() {
+    let args: Vec<String> = std::env::args().collect();
+    if args.get(1).map(|s| s.as_str()) == Some("--child") {
+        let g = |i: usize| args.get(i).cloned().unwrap_or_default();
+        std::process::exit(child::child_main(&g(2), &g(3), g(4).parse().unwrap_or(0), g(5).parse().unwrap_or(usize::MAX)));
+    }
+    let mut ctx = Ctx::from_args(PROP, 36, 520);
+    let thorough = ctx.tier == Tier::Thorough;
+    let sh = Shared { repo: std::env::var("VERIF_REPO").unwrap_or_else(|_| "/repo".into()), ..Default::default() };
+    let sb = Sandbox::new(&ctx.out_dir, Limits::default()).unwrap_or_else(|e| harness_error(&e));
+    if let Some(path) = ctx.replay.clone() { let _ = load_replay(&mut ctx); replay_one(&ctx, &sb, &sh, &path); }
+    let replay: Option<ReplaySpec> = None;
+    let mut rep = Report::new();
+
+    // ---- self checks: sandbox + oracle canaries (hang canary in the background: it needs ~8 s of waiting)
+    canaries(&sb, &sh);
+    let out_dir = ctx.out_dir.clone();
+    let hang = std::thread::spawn(move || hang_canary(&out_dir));
+    if let Err(e) = maps::self_test(ctx.seed, 30) { harness_error(&format!("maps self test: {e}")); }
+    let total = ctx.budget.as_secs_f64();
+
+    // ---- 1. hostile hand-built inputs: ladders, self-references, limit values (one case per family)
+    let groups = all_specials(thorough);
+    let families: Vec<String> = groups.iter().map(|g| g.0.clone()).collect();
+    let groups = Mutex::new(groups.into_iter().map(Some).collect::<Vec<_>>());
+    run_cases(&sub_ctx(&ctx, total * 0.3), &replay, &mut rep, "special", families.len() as u64, |_rng, rep, case| {
+        let Some((family, items)) = groups.lock().unwrap()[case as usize].take() else { return };
+        let (seeds, jobs) = special_jobs(&family, items);
+        rep.count(&format!("special_families.{}", family.split('.').next().unwrap_or("")));
+        rep.seen("special_families", &family);
+        run_jobs(&sb, rep, &sh, seeds, jobs, &format!("special {family}"));
+    });
+
+    // ---- 2. descriptor strings
+    let n_desc = ctx.tier.pick(60, 600);
+    run_cases(&sub_ctx(&ctx, total * 0.1), &replay, &mut rep, "descriptor", n_desc, |rng, rep, case| {
+        let cfg = maps::GenCfg::default();
+        let seed: String = if (case as usize) < textmut::DESC_SEEDS.len() { textmut::DESC_SEEDS[case as usize].to_string() }
+            else if rng.bool() { maps::gen::method_desc(rng, &cfg, &["a/B".to_string(), "C$D".to_string()]) } else { maps::gen::field_desc(rng, &cfg, &["a/B".to_string()]) };
+        let muts = textmut::desc_mutants(seed.as_bytes());
+        let mut jobs = vec![];
+        for p in [Parser::FieldDesc, Parser::MethodDesc, Parser::ReturnDesc] { jobs.extend(jobs_from(p, 0, 0, muts.clone())); }
+        run_jobs(&sb, rep, &sh, vec![seed.clone().into_bytes()], jobs, &format!("descriptor {seed}"));
+    });
+
+    // ---- 3. text formats: seeds from the mapping generators through the harness' own emitters, token-level mutations
+    let n_text = ctx.tier.pick(48, 1600);
+    run_cases(&sub_ctx(&ctx, total * 0.2), &replay, &mut rep, "text", n_text, |rng, rep, case| {
+        let fmt = [Fmt::Tiny, Fmt::TinyDiff, Fmt::Enigma, Fmt::Nests][(case % 4) as usize];
+        let mut cfg = if rng.chance(1, 3) { maps::GenCfg::tame() } else { maps::GenCfg::default() };
+        cfg.max_classes = 3; cfg.big = (0, 1);
+        let (text, aux): (String, u8) = match fmt {
+            Fmt::Tiny => { let m = maps::gen::gen_maps(rng, &cfg); let n = m.n() as u8; (textmut::emit_tiny(&m), n) }
+            Fmt::TinyDiff => (textmut::emit_tinydiff(&maps::gen::gen_diff(rng, &cfg)), 2),
+            Fmt::Enigma => (textmut::emit_enigma(&maps::gen::gen_maps(rng, &cfg.clone().with_n(2))), 2),
+            Fmt::Nests => { let m = maps::gen::gen_maps(rng, &cfg.clone().with_n(2)); (textmut::emit_nests(&m, rng), 2) }
+        };
+        let seed = text.into_bytes();
+        let muts = textmut::text_mutants(&seed, fmt, rng, 40, 64);
+        let mut jobs = jobs_from(fmt_parser(fmt), aux, 0, muts);
+        if fmt == Fmt::Tiny { for n in [2u8, 3, 4] { if n != aux { jobs.push(Job { parser: Parser::TinyV2, aux: n, seed: 0, edits: vec![], info: MutInfo::new("file", "namespace_count_mismatch", format!("{aux} read as {n}")), recipe: Some(json!("seed read with another N")) }); } } }
+        rep.count(&format!("text_seeds.{fmt:?}"));
+        run_jobs(&sb, rep, &sh, vec![seed], jobs, &format!("{fmt:?} text from maps::gen"));
+    });
+
+    // ---- 4. class files: generated (cf::gen + cf::emit) and the javac corpus; span-driven enumeration
+    let class_case = |rep: &mut Report, rng: &mut Rng, bytes: Vec<u8>, source: &str| {
+        let parsed = match cf::parse::parse_with_spans(&bytes) { Ok(p) => p, Err(e) => { rep.count("class_seeds.not_accepted_by_the_independent_parser"); rep.note(format!("seed skipped: {}", template(&e))); return; } };
+        let mut roles: BTreeMap<&'static str, u64> = BTreeMap::new();
+        let muts = classmut::enumerate(&bytes, &parsed.spans, rng, &classmut::EnumCfg { random_edits: 192 }, |r| *roles.entry(r).or_default() += 1);
+        for (r, n) in roles { rep.add(&format!("spans_mutated.{r}"), n); }
+        rep.count("class_seeds"); if bytes.len() < 512 { rep.count("class_seeds.truncated_at_every_byte"); }
+        rep.add("class_seed_bytes", bytes.len() as u64);
+        run_jobs(&sb, rep, &sh, vec![bytes], jobs_from(Parser::ReadClass, 0, 0, muts), source);
+    };
+    let n_gen = ctx.tier.pick(48, 1400);
+    run_cases(&sub_ctx(&ctx, total * 0.2), &replay, &mut rep, "class.generated", n_gen, |rng, rep, case| {
+        let cfg = cf::gen::GenCfg { max_fields: 2, max_methods: 3, max_insns: if case % 4 == 0 { 6 } else { 24 }, ..Default::default() };
+        let m = cf::gen::gen_class(rng, &cfg);
+        let layout = if case % 3 == 0 { cf::emit::Layout::canonical() } else { cf::emit::Layout::random(rng.next_u64()) };
+        let Ok(bytes) = cf::emit::emit(&m, &layout) else { rep.count("class_seeds.emit_skipped"); return };
+        class_case(rep, rng, bytes, "generated class (cf::gen)");
+    });
+    let corpus = cf::corpus::load(&ctx.verif_dir);
+    let mut order: Vec<usize> = (0..corpus.len()).collect();
+    Rng::new(common::rng::case_seed(ctx.seed, "C16/corpus-order", 0)).shuffle(&mut order);
+    if !thorough { order.sort_by_key(|i| corpus[*i].1.len() > 3000); } // quick: small classes first (complete enumeration of each one that is started)
+    let n_corpus = ctx.tier.pick(10.min(corpus.len()), corpus.len()) as u64;
+    let left = (total - ctx.elapsed_s()).max(2.0);
+    run_cases(&sub_ctx(&ctx, left), &replay, &mut rep, "class.corpus", n_corpus, |rng, rep, case| {
+        let (name, bytes) = &corpus[order[case as usize]];
+        rep.seen("corpus_classes", name);
+        class_case(rep, rng, bytes.clone(), &format!("corpus {name}"));
+    });
+
+    match hang.join() { Ok(Ok(())) => {} Ok(Err(e)) => harness_error(&format!("hang canary failed: {e}")), Err(_) => harness_error("hang canary thread panicked") }
+    let _ = std::fs::remove_dir(format!("{}/scratch/c16", ctx.out_dir));
+
+    // ---- evidence + obligations
+    fill_examples(&mut rep, &sh);
+    let st = sh.stats.lock().unwrap();
+    rep.add("sandbox.child_processes_started", st.spawns);
+    rep.add("sandbox.child_restarts_after_a_death", st.restarts_after_death);
+    rep.add("sandbox.stalls", st.stalls);
+    rep.add("sandbox.isolated_reruns", st.isolated_reruns);
+    drop(st);
+    let mut meta = Meta::new("fault_enumeration",
+        "an input = one seed (generated class via cf::gen+cf::emit, javac corpus class, Tiny v2 / tiny-diff / Enigma / nests text emitted from maps::gen models, descriptor string) with ONE mutation, \
+         enumerated systematically per seed: every count/length/pool-index/code-offset/tag/utf8-length/switch-bound span of the independent parser's span map set to each of {0,1,v-1,v+1,0x7f,0x80,0xff,0x7fff,0x8000,0xffff,max,(4-byte: 0x7fffffff,0x80000000,max-1,0x10000000),code_length,code_length+-1}, \
+         every opcode set to 14 operand-shape-changing opcodes, truncation at every byte (<512 B) or every span boundary, every pool entry pointing at itself, every bootstrap argument pointing at every dynamic constant, every attribute duplicated, every attribute renamed to every other attribute name, 192 random byte edits; \
+         texts: per line x token: drop/duplicate/empty/swap column, indentation +1/+5/-1/0/spaces, unknown keywords, huge/negative/hex numbers, injected 0xff/NUL/CR/lone surrogate/overlong NUL, CRLF, BOM, empty file, missing header, header with 0/1/2/3/5/100 namespaces, truncation, random edits; \
+         plus hand-built hostile inputs (nesting ladders up to 2^18..2^20 levels, cyclic bootstrap arguments, limit values). non-trivial = mutated (not the unchanged seed); distinct = parser x mutation family x role x boundary value x outcome (ok / error message template / panic / signal)")
+        .assume(format!("child limits: address space {} MiB (ulimit -v), main-thread stack {} KiB (ulimit -s), stall budget {} s per input (x10 in three isolated re-runs before `hang`)", sb.limits.vmem_kb >> 10, sb.limits.stack_kb, sb.limits.stall.as_secs()))
+        .assume("allocation budget per input: peak live heap above the level before the call <= 16 MiB + 64 x input length (counting global allocator)")
+        .assume("instrumented profile: overflow checks and debug assertions on (the repository's test profile)")
+        .assume("the writer is judged only on classes the reader accepted; descriptor parse() is called on unchecked slices and after the checked constructor");
+    for p in Parser::REAL { let n = rep.get(&format!("inputs.{}", p.name())); meta.oblige(format!("{} received at least 300 inputs (got {n})", p.name()), n >= 300); }
+    for p in Parser::REAL { let (o, e) = (rep.get(&format!("outcome.{}.ok", p.name())), rep.get(&format!("outcome.{}.err", p.name()))); meta.oblige(format!("{}: both accepted and refused inputs observed", p.name()), o > 0 && e > 0); }
+    meta.oblige("write_class ran on classes the reader accepted (mutated ones included)", rep.get("inputs.write_class") >= 50);
+    for r in ["count", "length", "pool_index", "code_offset", "tag", "utf8_length", "opcode", "bootstrap_index"] { meta.oblige(format!("class spans of role {r} mutated"), rep.get(&format!("spans_mutated.{r}")) > 0); }
+    meta.oblige("at least 3 class files under 512 bytes truncated at every byte", rep.get("class_seeds.truncated_at_every_byte") >= 3);
+    meta.oblige("at least 8 class seeds enumerated completely", rep.get("class_seeds") >= 8);
+    for f in ["self_reference.pool_entry_own_index", "self_reference.bootstrap_argument", "duplicate_attribute.attribute", "swap_attribute_name.attribute", "truncate.every_byte", "random_edit.bit_flip"] { meta.oblige(format!("class mutation family {f} applied"), rep.get(&format!("mutations.{f}")) > 0); }
+    for f in ["token.drop_column", "token.duplicate_column", "token.swap_columns", "token.indent", "token.keyword", "token.number", "token.inject", "file.crlf", "file.empty_file", "file.missing_header", "file.header_namespaces"] { meta.oblige(format!("text mutation family {f} applied"), rep.get(&format!("mutations.{f}")) > 0); }
+    meta.oblige(format!("every hand-built family ran ({} of {})", rep.seen_n("special_families"), families.len()), rep.seen_n("special_families") == families.len());
+    meta.oblige("text seeds of all four formats", ["Tiny", "TinyDiff", "Enigma", "Nests"].iter().all(|f| rep.get(&format!("text_seeds.{f}")) >= 2));
+    meta.oblige("no suspected hang left unresolved", rep.get("unresolved_suspected_hangs") == 0);
+    meta.extra.insert("sandbox".into(), json!({"address_space_kb": sb.limits.vmem_kb, "stack_kb": sb.limits.stack_kb, "stall_s": sb.limits.stall.as_secs(), "canaries": "ok/panic/abort/stack/alloc/allocation-failure/hang all recognised at start-up"}));
+    std::process::exit(finish(&ctx, rep, meta));
+}
